@@ -90,8 +90,18 @@ def run_check(prop, rules, tier, model, repo, explanation, assumptions, seed=0, 
     status = 0
     err = None
     try:
+        deferred = []
         for rule in rules:
-            rule(chk)
+            try:
+                rule(chk)
+            except AnalysisError as e:
+                # the other rules still run: when they report violations those are the informative result
+                deferred.append(e)
+        if deferred and not any(not o.ok for o in chk.obligations):
+            raise deferred[0]
+        for e in deferred:
+            chk.note('ANALYSIS-ERROR in one rule (other rules report violations): %s' % e)
+            print('NOTE (one rule could not analyse this tree: %s)' % e)
         counts = {}
         for o in chk.obligations:
             counts[o.rule] = counts.get(o.rule, 0) + 1
